@@ -180,7 +180,7 @@ static SPECS: &[PropertySpec] = &[
         thorough_runs: 150_000,
         real_components: TLS_REAL,
         stubbed_components: STUB,
-        assumptions: &["proxy URL credentials use unreserved characters only (percent-decoding policy is not stated)", "when the proxy URL has no credentials both an absent Proxy-Authorization and the encoding of empty credentials are accepted", "TLS success for IPv6-literal origins is not demanded", "default (native-tls) build"],
+        assumptions: &["proxy URL credentials use unreserved characters only (percent-decoding policy is not stated)", "when the proxy URL has no credentials both an absent Proxy-Authorization and the encoding of empty credentials are accepted", "TLS success for IPv6-literal origins is not demanded", "both TLS back ends are exercised (two builds of the same check)"],
     },
     PropertySpec {
         id: "C13",
@@ -192,7 +192,7 @@ static SPECS: &[PropertySpec] = &[
         thorough_runs: 400_000,
         real_components: REAL,
         stubbed_components: STUB,
-        assumptions: &["shutdown(Both) on a clone wakes a blocked reader with Ok(0) and a blocked writer with EPIPE (Linux)", "time spent inside connect itself is added to the bound (documented: timeout applies after the TCP connection is established)", "plain http only in this family; tunnelled variant covered by C12/C14 worlds"],
+        assumptions: &["shutdown(Both) on a clone wakes a blocked reader with Ok(0) and a blocked writer with EPIPE (Linux)", "time spent inside connect itself is added to the bound (documented: timeout applies after the TCP connection is established)", "TLS and CONNECT-tunnel routes are part of the stall, drip and no-false-timeout families; both TLS back ends are exercised (two builds)"],
     },
     PropertySpec {
         id: "C14",
@@ -429,6 +429,10 @@ fn cmd_replay(args: &[String]) -> i32 {
                 }
                 Verdict::Violation { class, msg } => {
                     println!("replay: violation class={} msg={}", class, msg);
+                    if class == o.expected_class && o.expected_hash != 0 && o.hash != o.expected_hash {
+                        println!("replay: event-log hash {} differs from the recorded {} - the run is not reproducible", o.hash, o.expected_hash);
+                        return 3;
+                    }
                     if class == o.expected_class {
                         let id = path.rsplit('/').next().unwrap_or("").split('-').next().unwrap_or("").to_string();
                         println!("VIOLATION property={} replay={}", id, path);
